@@ -13,6 +13,7 @@ DRIVER = 'harness/rcu_drv.cpp'
 EXTRACT = 'Extract/RcuExtract.v'
 ML = 'rcu_model'
 SANITIZE = True
+ENUM = True
 
 LOCKR, LOCKW, BEGIN, NEXT, DEREF, ISEND, PUSHF, PUSHB, EMPF, EMPB, ERASE, RELEASE = range(12)
 PUSHES = (PUSHF, PUSHB, EMPF, EMPB)
